@@ -74,6 +74,11 @@ def install(env):
     env.live_nodes = set()
     V.random = ScriptedRandom(env)
 
+    # ---- `set([local_node, control_sim_node, target_sim_node])` in _lock_nodes iterates in hash order, and Host objects hash by
+    # address: the order of the lock requests / releases would differ from process to process.  A seeded permutation instead.
+    env.host_rank = {}
+    N.FakeHost.__hash__ = lambda self: env.host_rank.get(self.name, self.port)
+
     # ---- timer tie-break: same-instant timers fire in a seeded order -------------------------------------------------
     clock = env.clock
     orig_callLater = clock.callLater
@@ -402,6 +407,73 @@ class Result:
     pass
 
 
+# ------------------------------------------------------------------------------------------------------------------
+# the lock behaviour model L expects of an operation (coq/theories/Conc/Model.v), and the event trace in Coq syntax
+# ------------------------------------------------------------------------------------------------------------------
+def lock_kind(w, ops, op):
+    """static classification from the placement at issue time.  When a two-qubit gate runs concurrently the simulating node of a
+    qubit may move while another operation waits (`_lock_simulating_node` re-checks): such operations get the permissive kind."""
+    net = w.net
+    merges = sum(1 for o in ops if o[0] == "g2")
+    if op[0] == "new":
+        return "KOne %d" % op[1]
+    q = w.handle[op[1]]
+    if op[0] == "g2":
+        t = w.handle[op[2]]
+        if q.active != 1 or t.active != 1:
+            return "KNop"
+        return "KGate2 %d" % w.holder_node(q)
+    if q.active != 1:
+        return "KNop"
+    if merges:
+        return "KAny"
+    sim = N.node_index(net, q.simNode)
+    if op[0] in ("g1", "meas"):
+        return "KOne %d" % sim
+    a, t = w.holder_node(q), op[2]
+    if t >= len(net.nodes):
+        return "KNop"                           # unknown target: refused before any lock is requested
+    if sim in (a, t):
+        return "KSend %d %d" % (a, t)
+    return "KSend3 %d %d %d" % (a, sim, t)
+
+
+def coq_events(res):
+    """lock-level events of a run as Coq terms; None when an event could not be attributed to an operation"""
+    out = []
+    local = {k: int(kind.split()[1]) for k, kind in enumerate(res.kinds) if kind.startswith("KGate2")}
+    for ev in res.trace:
+        t = ev[0]
+        if t == "issue":
+            out.append("EIssue %d" % ev[1])
+        elif t == "lockn":
+            out.append("ELockn %d [%s]" % (ev[1], ";".join(str(n) for n in ev[2] if n != local.get(ev[1]))))
+        elif t in ("req", "acq"):
+            if ev[2] is None:
+                return None
+            out.append("%s %d %d %d" % ("EReq" if t == "req" else "EAcq", ev[1], ev[2], ev[3]))
+        elif t == "rel":
+            if ev[2] is None:
+                return None
+            out.append("ERel %d %d %s" % (ev[1], ev[2], "true" if ev[5] else "false"))
+        elif t == "timeout":
+            out.append("ETimeout %d" % ev[1])
+        elif t == "done":
+            out.append("EDone %d" % ev[1])
+    return out
+
+
+def coq_case(res):
+    evs = coq_events(res)
+    if evs is None:
+        return None
+    done = [k for k, r in enumerate(res.results) if r[0] != "hang"]
+    held = sorted(x[1] for x in res.snap["locks"] if x[0] == "node")
+    strict = 1 if (res.quiescent or not any(k.startswith(("KGate2", "KAny")) for k in res.kinds)) else 0
+    return "(%d, [%s], [%s], [%s], [%s], %d)" % (res.nnodes, "; ".join(res.kinds), "; ".join(evs), ";".join(map(str, done)),
+                                                 ";".join(map(str, held)), strict)
+
+
 def run_concurrent(env, scn, seed=0, schedule=None, p_tick=0.15, p_idle=0.1, budget=BUDGET):
     """one concurrent execution. schedule=None: choices drawn from Random(seed) and recorded; otherwise replayed."""
     install(env)
@@ -411,7 +483,11 @@ def run_concurrent(env, scn, seed=0, schedule=None, p_tick=0.15, p_idle=0.1, bud
     rng = random.Random(seed)
     env.backoff_rng = random.Random(seed * 7919 + 1)
     env.jitter_rng = random.Random(seed * 104729 + 2)
+    perm = list(range(len(w.names)))
+    random.Random(seed * 31 + 3).shuffle(perm)
+    env.host_rank = {n: perm[i] for i, n in enumerate(w.names)}
     env.trace = []
+    env.rid = 0
     env.tags.clear()
     w.activate()
     net, clock = w.net, env.clock
@@ -419,7 +495,9 @@ def run_concurrent(env, scn, seed=0, schedule=None, p_tick=0.15, p_idle=0.1, bud
     boxes = []
     ops = [tuple(o) for o in scn["ops"]]
     issuers = [op[1] if op[0] == "new" else w.holder_node(w.handle[op[1]]) for op in ops]
+    kinds = []
     for k, op in enumerate(ops):
+        kinds.append(lock_kind(w, ops, op))          # as the placement is when the operation is issued
         ctx = contextvars.copy_context()
 
         def go(op=op, k=k):
@@ -490,6 +568,8 @@ def run_concurrent(env, scn, seed=0, schedule=None, p_tick=0.15, p_idle=0.1, bud
     res = Result()
     res.world = w
     res.issuers = issuers
+    res.kinds = kinds
+    res.nnodes = len(net.nodes)
     res.schedule = rec
     res.seed = seed
     res.trace = trace
@@ -501,6 +581,7 @@ def run_concurrent(env, scn, seed=0, schedule=None, p_tick=0.15, p_idle=0.1, bud
     res.steps = steps
     env.coinfn = None
     env.jitter_rng = None
+    env.host_rank = {}
     clock.calls[:] = []
     return res
 
